@@ -561,6 +561,124 @@ def run_dummy_calls_stream(chk, n_cases):
     return stats
 
 
+
+# ---------------------------------------------------------------- extension C: env_util.make_vec_env / unwrap_wrapper / is_wrapped
+
+ENVUTIL_HEADER = """From Coq Require Import List ZArith Bool.
+From SB3V Require Import Model.EnvUtil.
+Import ListNotations.
+"""
+
+
+def run_envutil_stream(chk, n_cases):
+    """the real make_vec_env / unwrap_wrapper / is_wrapped vs Model.EnvUtil; plus the first two resets of the new VecEnv"""
+    import shutil
+    import tempfile
+    import warnings
+
+    import gymnasium as gym
+    from gymnasium import spaces
+    from gymnasium.wrappers import TimeLimit
+
+    from harness import scripted_envs as se
+    from harness.common import coq_bool, coq_list, coq_nat, coq_option, coq_Z
+    from stable_baselines3.common.env_util import is_wrapped, make_vec_env, unwrap_wrapper
+    from stable_baselines3.common.monitor import Monitor
+
+    class WA(gym.Wrapper):
+        pass
+
+    class WB(WA):
+        pass
+
+    class WC(gym.Wrapper):
+        pass
+
+    classes = {"WA": WA, "WB": WB, "WC": WC, "Monitor": Monitor}
+    rng = chk.rng
+    script = {"episodes": [{"reset_tag": 1, "reset_info": 0, "steps": [{"tag": 2, "r4": 0, "term": True, "trunc": False, "info": 0}]}]}
+    exprs, expected, cases = [], [], []
+    tmp = tempfile.mkdtemp(prefix="c01_monitor_")
+    stats = {"make_vec_env": 0, "unwrap": 0}
+    try:
+        with warnings.catch_warnings():
+            warnings.simplefilter("ignore")
+            for k in range(n_cases):
+                n, seed, start = rng.randint(1, 4), rng.choice([None, rng.randint(0, 500)]), rng.randint(0, 3)
+                mdir = os.path.join(tmp, f"d{k}") if rng.random() < 0.5 else None
+                wc = TimeLimit if rng.random() < 0.5 else None
+                case = {"n": n, "seed": seed, "start": start, "monitor_dir": bool(mdir), "wrapper": bool(wc)}
+                venv = make_vec_env(se.ScriptedEnv, n_envs=n, seed=seed, start_index=start, monitor_dir=mdir, wrapper_class=wc,
+                                    env_kwargs=dict(script=script, obs_kind="box1", act_kind="discrete"),
+                                    wrapper_kwargs=dict(max_episode_steps=10**9) if wc else None)
+                try:
+                    got = []
+                    for i, env in enumerate(venv.envs):
+                        layers, e = [], env
+                        while isinstance(e, gym.Wrapper):
+                            if isinstance(e, Monitor):
+                                f = e.results_writer.file_handler.name if e.results_writer is not None else None
+                                ok = f is None or (os.path.dirname(f) == mdir and os.path.basename(f) == f"{i + start}.monitor.csv")
+                                layers.append([0, None if f is None else ([77, i + start] if ok else ["BAD", f])])
+                            else:
+                                layers.append([5 if isinstance(e, TimeLimit) else -1, None])
+                            e = e.env
+                        aseed = None
+                        if seed is not None:
+                            ref = spaces.Discrete(4)
+                            ref.seed(seed + i + start)
+                            same_stream = [int(env.action_space.sample()) for _ in range(6)] == [int(ref.sample()) for _ in range(6)]
+                            aseed = seed + i + start if same_stream else "BAD"
+                        got.append([i + start if e.env_id == 0 else "?", aseed, layers, is_wrapped(env, Monitor)])
+                    venv.reset()
+                    venv.reset()
+                    logs = venv.env_method("get_log")
+                    first = [lg[0][1] for lg in logs]
+                    second = [lg[1][1] for lg in logs]
+                    base = seed if seed is not None else first[0]
+                    seeds_ok = all(isinstance(x, int) for x in first) and first == [base + i for i in range(n)] and second == [None] * n
+                finally:
+                    venv.close()
+                exprs.append(f"(let r := make_vec_env {coq_nat(n)} {coq_option(seed, coq_Z)} 0%Z {coq_nat(start)} {coq_option(77 if mdir else None, coq_Z)} "
+                             f"{coq_option(5 if wc else None, coq_Z)} in (map (fun d => (d_rank d, d_action_seed d, map (fun l => match l with GMonitor f => (0%Z, f) | GWrapper c => (c, None) end) "
+                             f"(d_layers d), is_wrapped is_monitor (d_layers d))) (fst r), snd r))")
+                expected.append(("make_vec_env", case, got, seeds_ok))
+                stats["make_vec_env"] += 1
+                # unwrap_wrapper / is_wrapped on a random chain of gym wrappers
+                names = [rng.choice(["WA", "WB", "WC", "Monitor"]) for _ in range(rng.randint(0, 5))]
+                env = se.ScriptedEnv(script)
+                objs = []
+                for nm in reversed(names):
+                    env = classes[nm](env)
+                    objs.insert(0, env)
+                q = rng.choice(["WA", "WB", "WC", "Monitor"])
+                u = unwrap_wrapper(env, classes[q])
+                pos = None if u is None else next(j for j, o in enumerate(objs) if o is u)
+                inst = [issubclass(classes[nm], classes[q]) for nm in names]
+                exprs.append(f"(unwrap (fun p => nth p {coq_list(inst, coq_bool)} false) (seq 0 {coq_nat(len(names))}), is_wrapped (fun p => nth p {coq_list(inst, coq_bool)} false) (seq 0 {coq_nat(len(names))}))")
+                expected.append(("unwrap", {"chain": names, "query": q}, [pos, bool(is_wrapped(env, classes[q]))], True))
+                stats["unwrap"] += 1
+    finally:
+        shutil.rmtree(tmp, ignore_errors=True)
+    vals = common.coq_eval_many("C01c", ENVUTIL_HEADER, exprs, shard=200, procs=4)
+    for (kind, case, got, ok), v in zip(expected, vals):
+        if kind == "make_vec_env":
+            descs, s = v
+            model = [[d[0], _opt(d[1]), [[l[0], (list(_opt(l[1])) if _opt(l[1]) is not None else None)] for l in d[2]], d[3]] for d in descs]
+            if got != model or not ok or (case["seed"] is not None and s != case["seed"]):
+                what = "first-reset-seeds" if got == model else "construction"
+                chk.violation(f"oracle-make-vec-env-{what}", f"make_vec_env{case}: real {got} (reset seeds delivered once as seed+i: {ok}) model {model}",
+                              {"make_vec_env_case": case, "real": got, "model": model}, found_input=True)
+                return stats
+        else:
+            model = [_opt(v[0]), bool(v[1])]
+            if got != model:
+                chk.violation("oracle-unwrap-wrapper-outermost", f"unwrap_wrapper on chain {case['chain']} for {case['query']}: real position/is_wrapped {got} expected {model}",
+                              {"unwrap_case": case, "real": got, "model": model}, found_input=True)
+                return stats
+    return stats
+
+
 # ---------------------------------------------------------------- driver
 
 def valid_ops(ops):
@@ -653,10 +771,13 @@ def main():
     n_attr, n_calls = (150, 60) if quick else (1500, 400)
     attr_stats = run_attr_stream(chk, n_attr) if not chk.violations else {}
     calls_stats = run_dummy_calls_stream(chk, n_calls) if not chk.violations else {}
+    envutil_stats = run_envutil_stream(chk, 40 if quick else 400) if not chk.violations else {}
+    chk.notes["env_util_stream"] = envutil_stats
     chk.notes["wrapper_getattr_stream"] = attr_stats
     chk.notes["dummy_indexed_calls_stream"] = calls_stats
-    chk.coverage["evaluations"] = len(cases) + attr_stats.get("cases", 0) + calls_stats.get("cases", 0)
-    chk.coverage["traces_validated_against_impl"] = len(cases) + attr_stats.get("cases", 0) + calls_stats.get("cases", 0)
+    extra = attr_stats.get("cases", 0) + calls_stats.get("cases", 0) + envutil_stats.get("make_vec_env", 0) + envutil_stats.get("unwrap", 0)
+    chk.coverage["evaluations"] = len(cases) + extra
+    chk.coverage["traces_validated_against_impl"] = len(cases) + extra
     chk.coverage["distinct_nontrivial"] = len(distinct)
     chk.coverage["rule"] = ("random op lists (reset/step/seed/set_options(dict|list), 20-60 ops on DummyVecEnv n_envs 1-5, 12-30 ops on SubprocVecEnv n_envs 1-3) over scripted "
                             "sub-environments cycling through 10 observation-space kinds and 5 action-space kinds; boundary-biased scripts (length-1 episodes, terminated and "
